@@ -181,8 +181,8 @@ theorem C10_affine_full (piv : Rat) (hpi : 0 < piv) (us : List (Mag × OriginDec
 
 /-- Non-vacuity: Kelvins (no origin), Celsius (27315 centi-kelvins) and milli-kelvins: the assembly
 returns magnitude 1/1000 (the finest unit also divides the displacement 273.15 K) and origin ZERO. -/
-example : commonPointAssembly [([], none), ([], some (27315, [(.prime 2, -2), (.prime 5, -2)])), ([(.prime 2, -3), (.prime 5, -3)], none)] =
-    some ([(.prime 2, -3), (.prime 5, -3)], ⟨0, 0, 0⟩, none) := by
+example : (commonPointAssembly [([], none), ([], some (27315, [(.prime 2, -2), (.prime 5, -2)])), ([(.prime 2, -3), (.prime 5, -3)], none)]).map
+      (fun r => (r.1, r.2.1.pos)) = some ([(.prime 2, -3), (.prime 5, -3)], 0) := by
   decide +kernel
 
 end Au
